@@ -2,7 +2,7 @@
 which predicates are evaluated on the implementation's trace, and what is trusted."""
 import collections, hashlib, json, os
 from common import *
-import daemon, preds, trace, hostlist, redfish, speclayer, libpm, config, lexlayer, cbuflayer, seriallayer
+import daemon, preds, trace, hostlist, redfish, speclayer, libpm, config, lexlayer, cbuflayer, seriallayer, listlayer, hashlayer
 
 TRUSTED_BASE = [
     'Lean 4.33.0 kernel (thorough tier: re-checked by leanchecker)',
@@ -195,7 +195,7 @@ RXQ = (r'^O RXMISMATCH', 'the real interpreter evaluates another pattern than th
 PROPS['C08'] = dict(layers=[D(P.p_c08, P.p_c01, profile=dict(faults=0.5, storm=0.003))],
                     refines=[(WIRE, 'the bytes sent to a device are not what the script prescribes for this input (reference semantics: C08_refines, C08_sends_are_script)'), RXQ], planned=['composition of the refinement over postPoll sequences with reconnects'])
 PROPS['C09'] = dict(layers=[D(P.p_c09_write, P.p_c09_read, P.p_c04_quit, profile=dict(garbage=0.05, flood=0.004, longline=0.001, storm=0.004, burst=0.005, exactfit=0.03)), cbuflayer.CbufLayer(), seriallayer.SerialLayer()], planned=['the daemon model (Dev2/Daemon) still carries its buffers as byte lists with the size rule; it is tied to the ring model (Pm/CbufRing) through the shared size rule growTo and the refinement theorems C09_ring_*, not by substitution'])
-PROPS['C10'] = dict(layers=[D(P.p_c10, profile=dict(storm=0.003))], planned=['C10_head_only', 'C10_transcript', 'C10_fifo'])
+PROPS['C10'] = dict(layers=[D(P.p_c10, profile=dict(storm=0.003)), listlayer.ListLayer()], planned=['the daemon model (Dev2/Daemon) still carries its queues as plain lists; it is tied to the node-level model of liblsd/list.c (Pm/LsdList) through the refinement theorems C10_list_* (a valid node-level list is a plain list with cursors under every call sequence), not by substitution; callbacks that modify the list they are called from are not covered'])
 PROPS['C12'] = dict(refines=[(r'^O RXMISMATCH', 'after the failure the pending action is not executed again as its script prescribes from the first statement on: the real interpreter evaluates another pattern than the reference program at this point of this input (C12_restart, C12_rewind_initial, C08_refines)'), (r'^(Y write [23]\d\d\d |O dev \d+ to )', 'what is sent to the device after a failure is not what the pending scripts prescribe when executed again from their first statement (C12_restart, C12_rewind_initial: the rewound action abstracts to its whole script)'), (r'^(O dev \d+ conn|Y socket|Y connect)', 'the connection attempts are not those the back-off schedule and the connection layer prescribe for this input (C12_no_attempt_within_backoff, C12_backoff_one_second, C12_ioerr)')], layers=[D(P.p_c12, P.p_c12_disconnect, P.p_c04, P.p_c02_c03, profile=dict(pF6=0.02, calm=0.3, dead=0.004))], planned=['C12_ioerr', 'C12_recover_partial'])
 PROPS['C13'] = dict(layers=[config.ConfigLayer()], planned=['C13_listings at daemon level (nodes / device replies) — the replies themselves are mirrored in Pm.Daemon and compared on every run'])
 PROPS['C14'] = dict(layers=[hostlist.HostlistLayer()], planned=['C14_roundtrip', 'C14_sort_perm', 'C14_three_hops'])
@@ -428,6 +428,7 @@ ML = lambda *f, **k: MarkerLayer(list(f), **k)
 PROPS['C01']['layers'].append(ML(P.p_m_c01, P.p_m_c02, profile=dict(faults=0.3)))
 PROPS['C02']['layers'].append(ML(P.p_m_c02, P.p_m_c01, generic=[P.p_c02_c03], profile=dict(faults=0.5)))
 PROPS['C03']['layers'].append(ML(P.p_m_c02, generic=[P.p_c02_c03], profile=dict(faults=0.5)))
+PROPS['C03']['layers'].append(hashlayer.HashLayer())
 PROPS['C08']['layers'].append(ML(P.p_m_c08, P.p_m_c01, profile=dict(faults=0.3)))
 PROPS['C13']['layers'].append(ML(P.p_m_c13, profile=dict(faults=0.2), quick=(16, 400)))
 PROPS['C13']['refines'] = [(r'^C \d+ ', "a listing sent to a client is not the configured map (the replies of 'device' and 'nodes' are mirrored in Pm.Daemon: C13_nodes_listing)")]
